@@ -40,7 +40,7 @@ MANIFEST = {
                  'pairs; stack/level invariants checked at every probe and '
                  'after the call',
     'text': 'All ordered forests of <= 3 (quick) / <= 4 (thorough) block '
-            'nodes over 19 block kinds (in, batched in, in mapping, in over mixed pushed / unpushed items, in / batched in over an empty sequence with the blocks in the else branch, if with three named conditions, with, with only, '
+            'nodes over 22 block kinds (in, batched in, in mapping, in over mixed pushed / unpushed items, in / batched in over an empty sequence with the blocks in the else branch, if with three named conditions, with, with only, '
             'let, if, try body, try handler, try/finally body, finally, '
             'raise, sub-template, tree, tree with expand_all + '
             'branches_expr) are run on the real code as a sub-template call '
@@ -57,7 +57,7 @@ MANIFEST = {
             'states.',
 }
 DYNAMIC = True        # few heavy cases: dynamic load balancing
-RULE = ('programs: forests of <= 3 / <= 4 block nodes over 19 kinds; faults: '
+RULE = ('programs: forests of <= 3 / <= 4 block nodes over 22 kinds; faults: '
         'none, one (each ordinal x {raise HB, return}), two (second at every '
         'later ordinal; quick: for programs of <= 2 blocks).  A run is '
         'non-trivial when a fault fired (control flow was changed).')
@@ -66,8 +66,8 @@ ASSUMPTIONS = ['tree rendering needs URL and RESPONSE in the namespace; the '
 CASE_CPU_SECONDS = 300.0
 
 KINDS = ('in', 'inb', 'inmap', 'inmix', 'inempty', 'inbempty', 'if2', 'with', 'withonly', 'let', 'if', 'try', 'tryh',
-         'tryf', 'fin', 'raise', 'sub', 'tree', 'treex')
-LEAF_ONLY = ('withonly', 'tree', 'treex')     # no nested blocks inside
+         'tryf', 'fin', 'raise', 'sub', 'subtuple', 'tree', 'treex', 'treedm', 'treedp')
+LEAF_ONLY = ('withonly', 'tree', 'treex', 'treedm', 'treedp')     # no nested blocks inside
 SYNTAXES = ('dtml', 'ssi', 'epfs')
 
 
@@ -189,6 +189,29 @@ class Builder:
         elif kind == 'sub':
             ns['sub%d' % k] = ['tmpl', inner, {'sd%d' % k: ['lit', 1]}]
             n = ['var', N('sub%d' % k), []]
+        elif kind == 'subtuple':
+            # a sub-template called from an expression on the caller's
+            # namespace, with a tuple of two client objects
+            ns['sub%d' % k] = ['tmpl', inner, {'sd%d' % k: ['lit', 1]}]
+            ns['ca%d' % k] = ['obj', {'ca': ['lit', 1]}]
+            ns['cb%d' % k] = ['obj', {'cb': ['lit', 2]}]
+            n = ['var', E('sub%d((ca%d, cb%d), _)' % (k, k, k)), []]
+        elif kind == 'treedm':
+            # leaves / expand / header / footer name documents that do not
+            # exist
+            n = ['tree', N('root'), [T('r'), self.probe('row%d' % k)],
+                 [['leaves', 'nold%d' % k], ['expand', 'noed%d' % k],
+                  ['header', 'nohd%d' % k], ['footer', 'noft%d' % k]]]
+        elif kind == 'treedp':
+            # ... that exist (and may raise), are None, or are missing
+            ns['ld%d' % k] = ['tmpl', [T('L'), self.probe('leafdoc%d' % k)],
+                              {}]
+            ns['hd%d' % k] = ['tmpl', [T('H'), self.probe('headdoc%d' % k)],
+                              {}]
+            ns['ed%d' % k] = ['lit', None]
+            n = ['tree', N('root'), [T('r'), self.probe('row%d' % k)],
+                 [['leaves', 'ld%d' % k], ['expand', 'ed%d' % k],
+                  ['header', 'hd%d' % k], ['footer', 'noft%d' % k]]]
         elif kind == 'tree':
             n = ['tree', N('root'), [T('r'), self.probe('row%d' % k)], []]
         elif kind == 'treex':
